@@ -178,7 +178,29 @@ func judgeScan(rt *rapid.T, o *historyOpts, w *world.World, rec *world.ScanRecor
 	}
 }
 
+// bigProfile turns a history profile into its large-group variant: group 0 has tens to a
+// hundred-odd nodes, histories are short, and bulk environment steps touch many nodes at once.
+func bigProfile(p *world.Profile) *world.Profile {
+	q := *p
+	q.Name += "-big"
+	q.Big = true
+	q.MaxInit = 150
+	if q.MaxGroups > 2 {
+		q.MaxGroups = 2
+	}
+	q.Steps = 8
+	if q.Fleet == 1 {
+		q.Fleet = 3 // half of the groups buy capacity through fleet requests
+	}
+	q.Weights = with(p.Weights, "bulk", 8, "bulkAnd", 8, "scan", 12)
+	return &q
+}
+
 func historyCheck(t *testing.T, o *historyOpts) {
+	if strings.HasSuffix(t.Name(), "Big") {
+		o.profile = bigProfile(o.profile)
+		o.col.Rule = "large-group variant (9-150 nodes, bulk steps); " + o.col.Rule
+	}
 	o.col.Rule += "; distinct cases are counted by the situation digest of each non-trivial scan (per group: configuration numbers, every node's class / taint-age bucket / occupancy / protection, exact request and capacity totals, lock state, actions taken); the coarse class of each non-trivial scan is in class_histogram"
 	rapid.Check(t, func(rt *rapid.T) { runHistory(rt, o) })
 }
@@ -188,7 +210,7 @@ func baseWeights() map[string]int {
 	return map[string]int{
 		"scan": 10, "targetUtil": 8, "advance": 6, "addPods": 2, "finishPods": 1, "clearNode": 2, "schedule": 1,
 		"launch": 2, "reconcile": 1, "register": 2, "gcNodes": 1, "cordon": 2, "taintExt": 3, "foreignTaint": 1,
-		"removeTaint": 1, "annotate": 1, "asgDesired": 1, "restart": 1,
+		"removeTaint": 1, "annotate": 1, "asgDesired": 1, "restart": 1, "notReady": 1,
 	}
 }
 
